@@ -182,6 +182,14 @@ func (c *Check) AddExplore(name string, r *explore.Report, replayCfg any) {
 		p["capped"] = r.Capped
 		c.caps = append(c.caps, name+": "+r.Capped)
 	}
+	if r.Diverged > 0 {
+		p["subtrees_skipped_replay_divergence"] = r.Diverged
+		p["first_divergence"] = r.FirstDivergence
+		c.caps = append(c.caps, fmt.Sprintf("%s: %d subtrees skipped (execution did not follow its prefix)", name, r.Diverged))
+	}
+	if r.Unconfirmed > 0 {
+		p["violations_not_reproduced_on_replay"] = r.Unconfirmed
+	}
 	if !r.Exhaustive {
 		c.exhaustive = false
 	}
